@@ -25,6 +25,14 @@ type partial struct {
 
 // ShardChild reports whether this process is a shard worker: everything outside
 // the Sharded body must be skipped there (the parent does it once).
+// deadlineUnix: the parent's absolute deadline (0 = none), handed to shard children so that stages do not add up.
+func (r *Run) deadlineUnix() int64 {
+	if r.Deadline.IsZero() {
+		return 0
+	}
+	return r.Deadline.Unix()
+}
+
 func (r *Run) ShardChild() bool { return os.Getenv("VERIF_SHARD") != "" }
 
 // Sum adds n to a named counter reported in coverage (merged across shards).
@@ -96,6 +104,7 @@ func (r *Run) Sharded(n, procs int, body func(shard, n int)) {
 				fmt.Sprintf("VERIF_SHARD=%d/%d", (i+r.Seed)%n, n),
 				fmt.Sprintf("VERIF_SHARD_OUT=%s/%d.json", dir, i),
 				fmt.Sprintf("VERIF_SHARD_STAGE=%d", stage),
+				fmt.Sprintf("VERIF_DEADLINE_AT=%d", r.deadlineUnix()),
 				fmt.Sprintf("GOMAXPROCS=%d", procs))
 			cmd.Stdout = os.Stderr
 			cmd.Stderr = os.Stderr
@@ -126,7 +135,11 @@ func (r *Run) Sharded(n, procs int, body func(shard, n int)) {
 		r.Exhaustive = r.Exhaustive && p.Exhaustive
 		for _, k := range p.Nontrivial {
 			kb, _ := hex.DecodeString(k)
-			r.nontrivial[string(kb)] = struct{}{}
+			if len(r.nontrivial) < 4*nontrivialCap {
+				r.nontrivial[string(kb)] = struct{}{}
+			} else {
+				r.nontrivialCapped = true
+			}
 		}
 		for k, v := range p.Outcomes {
 			r.outcomes[k] += v
